@@ -23,8 +23,8 @@ Inductive sval :=
 Record sattr := mkSAttr { sa_implied : bool; sa_name : str; sa_boolean : bool; sa_value : sval }.
 
 Inductive spart :=
-| PId (v : str)                      (* #v  *)
-| PClass (v : str)                   (* .v  *)
+| PId (k : nat) (v : str)            (* #v ; k further `#` in front: ##v ... (a "multiple" mention) *)
+| PClass (k : nat) (v : str)         (* .v ; k further `.` in front: ..v ...                        *)
 | PSet (l : list sattr).             (* [a1 a2 ... an], single spaces between *)
 
 (* an element: name, parts, optionally a text `{T}`, optionally the self-closing mark `/` written last *)
@@ -54,8 +54,8 @@ Fixpoint attrs_text (l : list sattr) : str :=
 
 Definition part_text (p : spart) : str :=
   match p with
-  | PId v => c_hash :: v
-  | PClass v => c_dot :: v
+  | PId k v => repeat c_hash (S k) ++ v
+  | PClass k v => repeat c_dot (S k) ++ v
   | PSet l => c_lbrack :: attrs_text l ++ [c_rbrack]
   end.
 Fixpoint parts_text (ps : list spart) : str :=
@@ -108,7 +108,7 @@ Definition sattr_ok (a : sattr) : Prop :=
 Definition word_ok (w : str) : Prop := w <> [] /\ Forall name_char w.
 Definition spart_ok (p : spart) : Prop :=
   match p with
-  | PId v | PClass v => word_ok v
+  | PId _ v | PClass _ v => word_ok v
   | PSet l => Forall sattr_ok l
   end.
 Definition selem_ok (e : selem) : Prop :=
@@ -162,10 +162,14 @@ Fixpoint attrs_toks (pos : nat) (l : list sattr) : list token :=
       attr_toks pos a ++ space_tok (pos + length (attr_text a)) :: attrs_toks (pos + length (attr_text a) + 1) l'
   end.
 
+(* a run of [n] operator characters *)
+Fixpoint op_run (o : optype) (pos : nat) (n : nat) : list token :=
+  match n with O => [] | S n' => tk1 (TOperator o) pos :: op_run o (pos + 1) n' end.
+
 Definition part_toks (pos : nat) (p : spart) : list token :=
   match p with
-  | PId v => [tk1 (TOperator OpId) pos; word_tok (pos + 1) v]
-  | PClass v => [tk1 (TOperator OpClass) pos; word_tok (pos + 1) v]
+  | PId k v => op_run OpId pos (S k) ++ [word_tok (pos + S k) v]
+  | PClass k v => op_run OpClass pos (S k) ++ [word_tok (pos + S k) v]
   | PSet l =>
       tk1 (TBracket true BAttr) pos :: attrs_toks (pos + 1) l
       ++ [tk1 (TBracket false BAttr) (pos + 1 + length (attrs_text l))]
@@ -838,14 +842,22 @@ Lemma wstop_hash r : wstop (c_hash :: r). Proof. wstop_const. Qed.
 Lemma wstop_dot r : wstop (c_dot :: r). Proof. wstop_const. Qed.
 Lemma wstop_lbrack r : wstop (c_lbrack :: r). Proof. wstop_const. Qed.
 
+Lemma seg_op_run g c op : (c = c_hash /\ op = OpId) \/ (c = c_dot /\ op = OpClass) ->
+  forall n, seg (C0 g) (repeat c n) (fun pos => op_run op pos n) (C0 g) (fun _ => True).
+Proof.
+  intros H. induction n as [|n IH]; [apply seg_nil|].
+  change (repeat c (S n)) with ([c] ++ repeat c n).
+  eapply seg_app'; [apply seg_op0; exact H|exact IH|(intros; exact I)|intros pos; reflexivity].
+Qed.
+
 Lemma seg_part g p :
   spart_ok p -> seg (C0 g) (part_text p) (fun pos => part_toks pos p) (C0 g) wstop.
 Proof.
-  destruct p as [v|v|l]; cbn [spart_ok part_text]; intros Hok.
-  - change (c_hash :: v) with ([c_hash] ++ v).
-    eapply seg_app'; [apply seg_op0; auto|apply seg_word0; exact Hok|(intros; exact I)|intros pos; reflexivity].
-  - change (c_dot :: v) with ([c_dot] ++ v).
-    eapply seg_app'; [apply seg_op0; auto|apply seg_word0; exact Hok|(intros; exact I)|intros pos; reflexivity].
+  destruct p as [k v|k v|l]; cbn [spart_ok part_text]; intros Hok.
+  - eapply seg_app'; [apply (seg_op_run g c_hash OpId); auto|apply seg_word0; exact Hok|(intros; exact I)|].
+    intros pos. cbn [part_toks]. rewrite repeat_length. reflexivity.
+  - eapply seg_app'; [apply (seg_op_run g c_dot OpClass); auto|apply seg_word0; exact Hok|(intros; exact I)|].
+    intros pos. cbn [part_toks]. rewrite repeat_length. reflexivity.
   - apply (seg_weaken _ _ _ _ (fun _ => True)); [auto|].
     change (c_lbrack :: attrs_text l ++ [c_rbrack]) with ([c_lbrack] ++ (attrs_text l ++ [c_rbrack])).
     eapply seg_app'; [apply seg_lbrack| |(intros; exact I)|].
@@ -855,7 +867,7 @@ Proof.
 Qed.
 
 Lemma part_text_wstop p rest : wstop (part_text p ++ rest).
-Proof. destruct p; cbn [part_text app]; [apply wstop_hash|apply wstop_dot|apply wstop_lbrack]. Qed.
+Proof. destruct p; cbn [part_text repeat app]; [apply wstop_hash|apply wstop_dot|apply wstop_lbrack]. Qed.
 
 Lemma parts_text_wstop ps rest : wstop rest -> wstop (parts_text ps ++ rest).
 Proof.
